@@ -120,6 +120,9 @@ enum Op {
     AYield,
     BlockOn(usize),
     IsFinished(usize),
+    AcqNew(usize, usize, usize, usize),
+    AcqPoll(usize, usize, usize),
+    AcqDrop(usize, usize, usize),
     TlsWith(usize, u64),
     ThreadId,
     Scope(usize, usize),
@@ -263,7 +266,21 @@ struct ChanObj {
 unsafe impl Sync for ChanObj {}
 unsafe impl Send for ChanObj {}
 
+/// Acquire futures kept by hand (created, polled once at a time by whichever task, dropped).  Whatever is left when the
+/// objects go away is leaked: dropping an Acquire calls into the semaphore, which may already be gone.
+struct AcqSlots(std::cell::UnsafeCell<Vec<Option<std::pin::Pin<Box<shuttle_engine::future::batch_semaphore::Acquire<'static>>>>>>);
+unsafe impl Sync for AcqSlots {}
+unsafe impl Send for AcqSlots {}
+impl Drop for AcqSlots {
+    fn drop(&mut self) {
+        for s in self.0.get_mut().drain(..) {
+            std::mem::forget(s);
+        }
+    }
+}
+
 enum Obj {
+    AcqSlots(AcqSlots),
     Atomic(AtomicU64),
     Sem(BatchSemaphore),
     Mutex(shuttle::sync::Mutex<()>),
@@ -334,6 +351,14 @@ impl Prog {
 fn parse_op(w: &str) -> Op {
     let num = |k: usize| w[k..].parse::<usize>().unwrap();
     match &w[..2.min(w.len())] {
+        "qn" | "qp" | "qd" => {
+            let v: Vec<usize> = w[2..].split('.').map(|x| x.parse().unwrap()).collect();
+            match &w[..2] {
+                "qn" => Op::AcqNew(v[0], v[1], v[2], v[3]),
+                "qp" => Op::AcqPoll(v[0], v[1], v[2]),
+                _ => Op::AcqDrop(v[0], v[1], v[2]),
+            }
+        }
         "lw" => {
             let parts: Vec<&str> = w[2..].split('.').collect();
             Op::TlsWith(parts[0].parse().unwrap(), parts[1].parse().unwrap())
@@ -454,6 +479,7 @@ fn make_objs(specs: &[String]) -> Vec<Obj> {
                 })
             }
             b'e' | b'k' | b'z' => Obj::Placeholder,
+            b'q' => Obj::AcqSlots(AcqSlots(std::cell::UnsafeCell::new((0..4).map(|_| None).collect()))),
             b'b' => Obj::Barrier(shuttle::sync::Barrier::new(w[1..].parse().unwrap())),
             b'o' => Obj::Once(OnceRef::Own(shuttle::sync::Once::new())),
             b's' => {
@@ -544,6 +570,35 @@ async fn run_ops_inner(p: Arc<Prog>, objs: Arc<Vec<Obj>>, b: usize, kind: Kind) 
                 let tid: usize = jh.thread().id().into();
                 let v = jh.join().unwrap();
                 log_op(2, &[tid as u64, v]);
+            }
+            Op::AcqNew(q, slot, o, n) => {
+                let Obj::AcqSlots(sl) = &objs_ref[q] else { panic!("vharness: not a slot table") };
+                let Obj::Sem(sm) = &objs_ref[o] else { panic!("vharness: not a semaphore") };
+                // SAFETY: single OS thread; the semaphore lives in the same object vector, which outlives the slot's use
+                let sm: &'static BatchSemaphore = unsafe { &*(sm as *const BatchSemaphore) };
+                let slots = unsafe { &mut *sl.0.get() };
+                assert!(slots[slot].is_none(), "vharness: slot in use");
+                slots[slot] = Some(Box::pin(sm.acquire(n)));
+                log_op(42, &[slot as u64]);
+            }
+            Op::AcqPoll(q, slot, _o) => {
+                let Obj::AcqSlots(sl) = &objs_ref[q] else { panic!("vharness: not a slot table") };
+                let mut fut = (unsafe { &mut *sl.0.get() })[slot].take().expect("vharness: empty slot");
+                let waker = shuttle_engine::runtime::execution::ExecutionState::with(|s| s.current().waker());
+                let mut cx = std::task::Context::from_waker(&waker);
+                let r = match std::future::Future::poll(fut.as_mut(), &mut cx) {
+                    std::task::Poll::Ready(Ok(())) => 0,
+                    std::task::Poll::Ready(Err(_)) => 1,
+                    std::task::Poll::Pending => 2,
+                };
+                (unsafe { &mut *sl.0.get() })[slot] = Some(fut);
+                log_op(43, &[slot as u64, r]);
+            }
+            Op::AcqDrop(q, slot, _o) => {
+                let Obj::AcqSlots(sl) = &objs_ref[q] else { panic!("vharness: not a slot table") };
+                let fut = (unsafe { &mut *sl.0.get() })[slot].take().expect("vharness: empty slot");
+                drop(fut);
+                log_op(44, &[slot as u64]);
             }
             Op::TlsWith(key, add) => {
                 let slot = p.key_objs.iter().position(|&k| k == key).expect("vharness: not a key");
